@@ -104,7 +104,7 @@ where
     let u_count = L - r_count;
     // prover: L message mappings, domain, challenge;  verifier: R message mappings, domain, challenge
     let n_prover = L + 2;
-    program(n_prover + r_count + 2);
+    program(n_prover + r_count + 3);
     let o = oracle();
     // the prover's challenge is a fixed oracle answer (state 77 -> scalar 77): with a symbolic challenge
     // the solver has to prove associativity of products of three symbolic factors and does not finish
@@ -172,6 +172,50 @@ where
         }
         expect_same_query = false;
     }
+    if EDIT == 5 {
+        // one surplus, never-signed disclosed message appended (R + 1 messages for R indexes): the
+        // verifier maps it too (one more query), then must refuse
+        dmsgs.push(vec![0xEE]);
+        o.ans[n_prover + r_count + 1] = o.ans[L];
+        o.ans[n_prover + r_count + 2] = o.ans[L + 1];
+        o.on = true;
+        let v5 = proof.proof_verify(&pk, Some(&dmsgs), Some(&vidx), vhdr, vph);
+        o.on = false;
+        kani::cover!(v5.is_err(), "the expected outcome is reachable");
+        assert!(v5.is_err(), "C04: a proof verifies for a statement with a surplus disclosed message");
+        return;
+    }
+    if EDIT == 6 {
+        // C11 / C02 / C04: the plain proof presented to the BLIND verifier (L absent).  Whatever it
+        // hashes must be under the blind interface's api_id, with independent answers, and it can only
+        // be accepted if such an independent answer equals the transmitted challenge.
+        let mut k = n_prover;
+        while k < n_prover + r_count + 2 {
+            o.ans[k] = kani::any();
+            k += 1;
+        }
+        o.on = true;
+        let v6 = proof.blind_proof_verify(&pk, hdr, ph, None, Some(&dmsgs), None, Some(&vidx), None);
+        o.on = false;
+        let blind_api = rsuite::<CS>().api_id(true);
+        let mut ok = true;
+        let mut k = n_prover;
+        while k < o.n {
+            ok = ok && o.dst_len[k] >= blind_api.len();
+            let mut i = 0;
+            while i < blind_api.len() {
+                ok = ok && o.dst_head[k][i] == blind_api[i];
+                i += 1;
+            }
+            k += 1;
+        }
+        assert!(ok, "C11: the blind verifier hashed something under a DST that does not start with the blind api_id (plain / blind interfaces are not separated)");
+        if v6.is_ok() {
+            assert!(o.n >= 1 && rf::scalar_of_state(o.ans[o.n - 1]) == rf::scalar_of_state(o.ans[L + 1]), "C11: a plain proof is accepted by the blind verifier although its challenge differs");
+        }
+        kani::cover!(v6.is_err(), "the expected outcome is reachable");
+        return;
+    }
     if !expect_same_query {
         // a different query gets an independent answer
         o.ans[n_prover + r_count + 1] = kani::any();
@@ -193,5 +237,7 @@ where
             assert!(rf::scalar_of_state(o.ans[n_prover + r_count + 1]) == rf::scalar_of_state(o.ans[L + 1]), "C04: edited statement accepted although the challenge differs");
         }
     }
-    kani::cover!(if EDIT == 0 { v.is_ok() } else { v.is_err() }, "the expected outcome is reachable");
+    if EDIT < 5 {
+        kani::cover!(if EDIT == 0 { v.is_ok() } else { v.is_err() }, "the expected outcome is reachable");
+    }
 }
